@@ -21,6 +21,7 @@ Each kind writes  <out>.traces.ndjson  (observable traces for spec/TraceGc.tla) 
 """
 from __future__ import annotations
 
+import _thread
 import hashlib
 import json
 import os
@@ -178,7 +179,7 @@ def expected_outcomes(items):
 class Run:
     """one execution: fresh threads, fresh guard state"""
 
-    def __init__(self, env, scripts, gc0, drivers=None, watchdog=10.0, want_locals=False):
+    def __init__(self, env, scripts, gc0, drivers=None, watchdog=15.0, want_locals=False):
         self.env = env
         bz = env.bz
         self.n = len(scripts)
@@ -208,14 +209,21 @@ class Run:
         self.pos = [0] * n
         self.excp = [False] * n
         self.crash = False
+        self.bgc = False
         self.dead = False
         self.hung = False
         self.errors = []
         self.outcomes = [[] for _ in range(n)]
         self.aborting = False
         self.steps = 0
-        self._back = threading.Semaphore(0)
-        self._go = [threading.Semaphore(0) for _ in range(n)]
+        # binary hand-off semaphores: raw locks (threading.Semaphore is Python code and would itself be traced)
+        self._back = _thread.allocate_lock()
+        self._back.acquire()
+        self._go = []
+        for _ in range(n):
+            g = _thread.allocate_lock()
+            g.acquire()
+            self._go.append(g)
         self.threads = []
         for t in range(n):
             th = threading.Thread(target=self._main, args=(t,), daemon=True, name=f"gc-sched-{t}")
@@ -327,13 +335,20 @@ class Run:
         env = self.env
 
         def f():
+            # the body of a condom'd call IS the Z3 call in progress: the collector must be off here
+            if self.gc.flag:
+                self.bgc = True
             for it in body:
+                if self.gc.flag:
+                    self.bgc = True
                 if it[0] == "C":
                     self._mk(it)()
                 elif it[1] == "z3":
                     raise env.z3.Z3Exception("verif: injected")
                 else:
                     raise RuntimeError("verif: injected")
+            if self.gc.flag:
+                self.bgc = True
             return None
 
         return env.bz.condom(f)
@@ -357,9 +372,10 @@ class Run:
         self.cur = t
         self.steps += 1
         self._go[t].release()
-        if not self._back.acquire(timeout=self.watchdog):
+        # global watchdog: a step is a few bytecodes; allow 4x the nominal time so that a loaded box cannot fake a hang
+        if not self._back.acquire(timeout=self.watchdog) and not self._back.acquire(timeout=3 * self.watchdog):
             self.hung = True
-            raise Hang(f"thread {t + 1} did not park within {self.watchdog}s")
+            raise Hang(f"thread {t + 1} did not park within {4 * self.watchdog}s")
         self.cur = None
         return self.kind[t]
 
@@ -381,7 +397,7 @@ class Run:
         """observable state for spec/GcGuardAbs.tla"""
         return {"gc": self.gc.flag, "act": int(self._anchor(ANCHOR_COUNT)), "ufl": self.ufl, "fl": list(self.fl),
                 "ins": list(self.ins), "pos": list(self.pos), "fin": [k == "fin" for k in self.kind],
-                "crash": self.crash, "dead": self.dead}
+                "bgc": self.bgc, "crash": self.crash, "dead": self.dead}
 
     def proj(self):
         """projection compared with the model's node"""
@@ -396,7 +412,7 @@ class Run:
         g = tuple((k, getattr(bz, k, None)) for k in sorted(self.env.init))
         th = tuple((("line" if k == "blocked" else k), f, o, s, p, fl, i)
                    for k, f, o, s, p, fl, i in zip(self.kind, self.func, self.off, self.stack, self.pos, self.fl, self.ins))
-        return hash((g, self.gc.flag, self.lock.holder, self.ufl, self.crash, th))
+        return hash((g, self.gc.flag, self.lock.holder, self.ufl, self.crash, self.bgc, th))
 
     def finish(self):
         """unwind whatever is still parked"""
@@ -419,7 +435,7 @@ def _cfg(job):
     return {"scripts": [list(s) for s in job["scripts"]], "gc0": bool(job["gc0"])}
 
 
-def run_schedule(env, job, sched, watchdog=10.0):
+def run_schedule(env, job, sched, watchdog=15.0):
     """execute one schedule (1-based thread ids); stops at the first step that cannot be taken.
     returns (states, executed_schedule, info)"""
     run = Run(env, job["scripts"], job["gc0"], job.get("drivers"), watchdog=watchdog)
@@ -478,7 +494,7 @@ def job_replay(env, job, out):
             j = {"scripts": job["scripts"], "gc0": path["gc0"], "drivers": drivers}
             drift = None
             sched = []
-            run = Run(env, j["scripts"], j["gc0"], drivers, watchdog=job.get("watchdog", 10.0))
+            run = Run(env, j["scripts"], j["gc0"], drivers, watchdog=job.get("watchdog", 15.0))
             st = [run.obs()]
             try:
                 cur = path["root"]
@@ -575,11 +591,11 @@ def job_explore(env, job, out):
     complete = True
     with open(out + ".traces.ndjson", "w") as tf:
         while todo:
-            if nexec >= max_exec or time.time() > deadline or nhang >= 3:
+            if nexec >= max_exec or time.time() > deadline or nhang >= 1:
                 complete = False
                 break
             pre = todo.pop()
-            run = Run(env, j["scripts"], j["gc0"], j["drivers"], watchdog=job.get("watchdog", 10.0), want_locals=True)
+            run = Run(env, j["scripts"], j["gc0"], j["drivers"], watchdog=job.get("watchdog", 15.0), want_locals=True)
             st = [run.obs()]
             sched = []
             new = False
@@ -646,7 +662,7 @@ def job_explore(env, job, out):
 
 
 def job_run(env, job, out):
-    st, done, info = run_schedule(env, job, job["sched"], watchdog=job.get("watchdog", 10.0))
+    st, done, info = run_schedule(env, job, job["sched"], watchdog=job.get("watchdog", 15.0))
     with open(out + ".traces.ndjson", "w") as tf:
         tf.write(json.dumps({"cfg": _cfg(job), "drv": _drv(job.get("drivers")), "sched": done, "st": st},
                             separators=(",", ":")) + "\n")
